@@ -14,6 +14,7 @@ func init() {
 			"PV-PAIR/PV-ROLE/PV-CONST: openLog requests ctr.ID with Since/Until = FormatInt(start|end .AsTime().Unix(), 10), stdout+stderr+timestamps, Tail=all, and labels the records with the same ctr's labels",
 			"PV-WHOLE: fetchContainers lists all containers and keeps exactly those whose labels Match(params.Labels); getLabels derives container_* labels from the fields they name",
 			"AF: the storage is asked for [Start+lookback, End] (instant) / [Start, End] (range), read off the evaluated paths with loads resolved through preceding stores; LP-OFFLOAD provenance of offloaded matchers",
+			"AF build range bounds (the window a metric query asks the daemon for); FE-CLASS KeyToLabel (a container is selectable under the sanitised name of each label)",
 		},
 		NotDecided: []string{"the Docker daemon's own since/until semantics", "regexp engine semantics", "that strconv/time functions meet their contracts"},
 		Rules: func(r *Run) {
